@@ -41,6 +41,9 @@ func NewGen(r *rand.Rand) *Gen {
 	g.state["grid"] = g.grid()
 	g.state["ku"] = g.uval(6)
 	g.state["pu"] = g.uval(3)
+	g.state["mu"] = g.uval(4)
+	g.state["mulist"] = g.ulist(false)
+	g.state["lq"] = int64(r.Intn(5))
 	g.state["kulist"] = g.ulist(true)
 	g.state["ulist"] = g.ulist(false)
 	g.state["slow"] = int64(r.Intn(5))
@@ -262,7 +265,7 @@ func (g *Gen) NextOp(prefer []string) int {
 	if len(prefer) > 0 && g.r.Intn(4) != 0 {
 		name = prefer[g.r.Intn(len(prefer))]
 	} else {
-		all := []string{"n", "s", "obj", "items", "kids:0", "kids:1", "plain", "nums", "grid", "ku", "pu", "kulist", "ulist", "slow", "exp", "r", "pick", "teams",
+		all := []string{"n", "s", "obj", "items", "kids:0", "kids:1", "plain", "nums", "grid", "ku", "pu", "mu", "mu", "mulist", "lq", "kulist", "ulist", "slow", "exp", "r", "pick", "teams",
 			fmt.Sprintf("team:%d", g.r.Intn(NumTeams)), fmt.Sprintf("v:%d", g.r.Intn(NumVCells)),
 			fmt.Sprintf("item:%d", g.r.Intn(NumItems))}
 		name = all[g.r.Intn(len(all))]
@@ -280,7 +283,7 @@ func (g *Gen) OpOn(name string) int {
 	switch {
 	case name == "teams":
 		nv = g.editIDs(old.([]int64), NumTeams)
-	case name == "n" || name == "slow" || name == "exp" || name == "r" || strings.HasPrefix(name, "team:") || strings.HasPrefix(name, "v:"):
+	case name == "n" || name == "slow" || name == "exp" || name == "r" || name == "lq" || strings.HasPrefix(name, "team:") || strings.HasPrefix(name, "v:"):
 		if g.r.Intn(8) == 0 {
 			nv = old // a write that changes nothing
 		} else {
@@ -388,7 +391,7 @@ func (g *Gen) OpOn(name string) int {
 			a = g.grid()
 		}
 		nv = a
-	case name == "ku" || name == "pu":
+	case name == "ku" || name == "pu" || name == "mu":
 		u := old.(UVal)
 		ids := 6
 		if name == "pu" {
@@ -416,7 +419,7 @@ func (g *Gen) OpOn(name string) int {
 		default:
 			nv = g.uval(ids)
 		}
-	case name == "kulist" || name == "ulist":
+	case name == "kulist" || name == "ulist" || name == "mulist":
 		keyed := name == "kulist"
 		a := append([]UVal{}, old.([]UVal)...)
 		switch g.r.Intn(6) {
@@ -547,12 +550,24 @@ func (g *Gen) GenVarQuery(tag string, o QueryOpts) (string, map[string]interface
 	return d.text, map[string]interface{}{"tag": tag, "k": float64(k)}, d.cells
 }
 
+// KeySwitch generates writes that switch the mixed union `mu` from its
+// key-less member to its keyed member (and on to a value change and back).
+func (g *Gen) KeySwitch() []int {
+	id := int64(g.r.Intn(4))
+	return []int{
+		g.AddOp(Op{Cell: "mu", Val: UVal{Kind: "A", ID: id, A: int64(g.r.Intn(4))}}),
+		g.AddOp(Op{Cell: "mu", Val: UVal{Kind: "B", ID: id, B: words[g.r.Intn(len(words))]}}),
+		g.AddOp(Op{Cell: "mu", Val: UVal{Kind: "B", ID: id, B: "changed"}}),
+	}
+}
+
 // QueryOpts selects optional fields.
 type QueryOpts struct {
 	Boom bool // may select the failing field
 	Res  bool // selects the resource-creating field
 	Slow bool // may select the slow field
 	Cost bool // selects the Expensive field on list elements and on the nullable object
+	LQ   bool // selects the live-query field (public reactive.Cache; registers a resource, then may fail)
 }
 
 // GenQuery generates a query `{ root(tag: "<tag>") { ... } }` and the cells
@@ -625,6 +640,13 @@ func (g *Gen) GenQuery(tag string, o QueryOpts) (string, []string) {
 			}
 			return fld{"pu { ... on PA { a } ... on PB { b } }", []string{"pu"}}
 		},
+		func() fld {
+			if r.Intn(2) == 0 {
+				return fld{"mu { __typename ... on PA { a same } ... on KB { id b } }", []string{"mu"}}
+			}
+			return fld{"mu { ... on PA { a } ... on KB { b } }", []string{"mu"}}
+		},
+		func() fld { return fld{"mulist { ... on PA { a } ... on KB { id b } }", []string{"mulist"}} },
 		func() fld { return fld{"kulist { ... on KA { id a } ... on KB { id b } }", []string{"kulist"}} },
 		func() fld { return fld{"ulist { __typename ... on PA { a } ... on PB { b same } }", []string{"ulist"}} },
 		func() fld { return fld{"exp", []string{"exp"}} },
@@ -643,13 +665,17 @@ func (g *Gen) GenQuery(tag string, o QueryOpts) (string, []string) {
 		cells = append(cells, f.cells...)
 	}
 	if o.Cost {
-		parts = append(parts, "ci: items { id cost }", "cp: pick { id cost }")
-		cells = append(cells, "items", "pick")
+		parts = append(parts, "ci: items { id cost }", "cp: pick { id cost }", "cm: mu { ... on PA { a same } ... on KB { id b } }")
+		cells = append(cells, "items", "pick", "mu")
 		cells = append(cells, itemCells()...)
 	}
 	if o.Slow && r.Intn(3) == 0 {
 		parts = append(parts, fmt.Sprintf("slow(us: %d)", 50+r.Intn(600)))
 		cells = append(cells, "slow")
+	}
+	if o.LQ {
+		parts = append(parts, "lq")
+		cells = append(cells, "lq", "boom")
 	}
 	if o.Boom {
 		parts = append(parts, "boom")
